@@ -9,12 +9,12 @@ mkdir -p $out
 cd $out
 QS=$(grep '^-Q' $V/coq/_CoqProject | sed "s# \([a-z0-9]*\) # $V/coq/\1 #")
 timeout 600 coqc $QS -Q $V/coq/extract Ext $V/coq/extract/Extract$Name.v > extract.log 2>&1 || { cat extract.log; exit 1; }
-h=$(cat *_model.ml $V/ocaml/${name}_driver.ml $V/ocaml/conv.ml | sha256sum | cut -c1-16)
+h=$(cat *_model.ml $V/ocaml/${name}_driver.ml $V/ocaml/conv.ml $V/ocaml/convz.ml | sha256sum | cut -c1-16)
 if [ -x driver ] && [ "$(cat .hash 2>/dev/null)" = "$h" ]; then exit 0; fi
-python3 - "$V/ocaml/${name}_driver.ml" "$V/ocaml/conv.ml" > driver_main.ml <<'PY'
+python3 - "$V/ocaml/${name}_driver.ml" "$V/ocaml/conv.ml" "$V/ocaml/convz.ml" > driver_main.ml <<'PY'
 import sys
-d=open(sys.argv[1]).read(); c=open(sys.argv[2]).read()
-sys.stdout.write(d.replace('(*CONV*)', c))
+d=open(sys.argv[1]).read(); c=open(sys.argv[2]).read(); z=open(sys.argv[3]).read()
+sys.stdout.write(d.replace('(*CONVZ*)', z).replace('(*CONV*)', c))
 PY
 rm -f *.cmi *.cmx *.o *_model.mli.orig
 ocamlfind ocamlopt -O3 -w -a -package str *_model.mli *_model.ml driver_main.ml -o driver 2>build.log || ocamlfind ocamlopt -w -a *_model.mli *_model.ml driver_main.ml -o driver > build.log 2>&1 || { cat build.log; exit 1; }
